@@ -116,6 +116,10 @@ func (xp xpathImpl) resolveOperator(oper *xpath.Operator, ident string, s *Selec
 	case "!=":
 		return !val.Equal(a, b), nil
 	default:
+		if a.Format() != b.Format() {
+			// a union holding a value of another member type than the literal's: no order between them
+			return false, nil
+		}
 		ca, aCanCompare := a.(val.Comparable)
 		cb, bCanCompare := b.(val.Comparable)
 		if !aCanCompare || !bCanCompare {
